@@ -242,6 +242,16 @@ class TransformerRun(object):
                     except ValueError as ex:
                         raise AnalysisError('%s: cannot interpret the memoised pair (%s)' % (self.f.where, ex))
                     return
+                if isinstance(v, ast.Call):
+                    # the pair is computed by a helper: interpreted with the same assumptions
+                    sub = self.call(v)
+                    if sub is not None and sub.ret is not None:
+                        self._memo_pair = sub.ret
+                        self.raised = self.raised or sub.raised
+                        # what the helper checked and converted is checked and converted for the memoised pair
+                        self.guards.update(sub.guards)
+                        self.int_lines.update(sub.int_lines)
+                        return
                 raise AnalysisError('%s: the memo stores `%s`, not a (begin, end) pair' % (self.f.where, ast.unparse(v)[:40]))
             if st is mm[5]:
                 self.ret = getattr(self, '_memo_pair', None)
